@@ -5,6 +5,11 @@ import CogentModel.Proofs.Splitlines
 import CogentModel.Proofs.SeqFormats
 import CogentModel.Spec.FastaText
 import CogentModel.Proofs.FastaGeneral
+import CogentModel.Model.Suffixes
+import CogentModel.Proofs.Suffixes
+import CogentModel.Gen.C06Dispatch
+import CogentModel.Model.GenBankLoc
+import CogentModel.Proofs.GenBankLoc
 /-! # C06 — property theorems (sequence formats round-trip, parsers agree, chunking is invisible) -/
 namespace CogentModel.C06
 open CogentModel.Splitlines CogentModel.SeqFormats CogentModel.SeqSpec CogentModel.FastaText
@@ -315,5 +320,82 @@ example : fileRaw [⟨[' '], ['a', '>', 'b'], [' '], true, [⟨[], .crlf⟩, ⟨
 example : fastaBytes Cfg.pinned ['>', ' ', 'a', '>', 'b', ' ', '\r', '\n', '\r', '\n', 'A', 'C', ' ', 'g', '\r', '\n', '\n',
      '>', '\n', ' ', '\t', 'T', '-', '\n', '\n', 'N', 'N'] = [(['a', '>', 'b'], ['A', 'C', 'G']), ([], ['T', '-', 'N', 'N'])] := by
   decide
+
+/-! ## Compression: what can be said in the model — the suffix dispatch
+
+gzip / bz2 / zip themselves are externals (exercised by the real round trips). What the code decides is WHICH
+opener handles a file, and it decides it from the file name only (`open_` -> `_get_compression_open` ->
+`get_format_suffixes` -> `Path.suffixes`). Writing goes through `atomic_write`, which writes a temporary file
+named `uuid + "".join(path.suffixes)` with `open_` and renames it; reading calls `open_` on the destination. -/
+
+/-- **Writer and reader are always paired by the same suffixes**: for every destination name and every dot-free
+stem, the temporary file `atomic_write` writes has exactly the destination's `suffixes`; hence (for either value
+of `bool(path.suffix)`) `get_format_suffixes` returns the same (format, compression) pair and
+`_get_compression_open` the same opener for the file being written and for the file later read: compress and
+decompress are only ever composed with matching suffixes. Tables generated from util/io.py on every run. -/
+theorem suffix_dispatch_consistent (u name : List Char) (hu : u ≠ []) (hdot : '.' ∉ u) :
+    Suffixes.suffixesOf (Suffixes.tmpName u name) = Suffixes.suffixesOf name ∧
+    ∀ hasSuffix : Bool,
+      Suffixes.formatSuffixes Gen.C06Dispatch.compressionSuffixes hasSuffix (Suffixes.suffixesOf (Suffixes.tmpName u name)) =
+        Suffixes.formatSuffixes Gen.C06Dispatch.compressionSuffixes hasSuffix (Suffixes.suffixesOf name) ∧
+      (Suffixes.formatSuffixes Gen.C06Dispatch.compressionSuffixes hasSuffix
+          (Suffixes.suffixesOf (Suffixes.tmpName u name))).map (fun p => Suffixes.codecOf Gen.C06Dispatch.codecTable p.2) =
+        (Suffixes.formatSuffixes Gen.C06Dispatch.compressionSuffixes hasSuffix
+          (Suffixes.suffixesOf name)).map (fun p => Suffixes.codecOf Gen.C06Dispatch.codecTable p.2) := by
+  have h := Suffixes.suffixesOf_tmpName u name hu hdot
+  refine ⟨h, fun b => ?_⟩
+  rw [h]
+  exact ⟨rfl, rfl⟩
+
+/-- **The generated dispatch table is total, exact and injective**: every suffix `get_format_suffixes` classifies
+as compression has an opener, every opener's key is such a suffix, and no two suffixes share an opener
+(so a file is never written by one codec and read by another, nor silently read as plain text). -/
+theorem suffix_dispatch_table_sound :
+    (∀ c ∈ Gen.C06Dispatch.compressionSuffixes, (Suffixes.codecOf Gen.C06Dispatch.codecTable (some c)).isSome = true) ∧
+    (∀ p ∈ Gen.C06Dispatch.codecTable, p.1 ∈ Gen.C06Dispatch.compressionSuffixes) ∧
+    (Gen.C06Dispatch.codecTable.map (·.1)).Nodup ∧ (Gen.C06Dispatch.codecTable.map (·.2)).Nodup := by
+  decide
+
+example : Suffixes.suffixesOf ['x', '.', 'F', 'a', '.', 'g', 'z'] = [['.', 'F', 'a'], ['.', 'g', 'z']] ∧
+    Suffixes.tmpName ['u', '1'] ['x', '.', 'F', 'a', '.', 'g', 'z'] = ['u', '1', '.', 'F', 'a', '.', 'g', 'z'] ∧
+    Suffixes.formatSuffixes Gen.C06Dispatch.compressionSuffixes true [['.', 'F', 'a'], ['.', 'g', 'z']] =
+      .ok (some ['f', 'a'], some ['g', 'z']) ∧
+    Suffixes.codecOf Gen.C06Dispatch.codecTable (some ['g', 'z']) = some ['g', 'z', 'i', 'p', '_', 'o', 'p', 'e', 'n'] := by
+  decide
+
+/-! ## GenBank: the location machinery shared by `minimal_parser` and `rich_parser` -/
+
+/-- **Location strings parse to the parts written**, for every single span `a..b`, `complement(a..b)`,
+`join(a..b,c..d,…)` and `complement(join(…))` with arbitrary natural coordinates and any number of parts:
+the tokenizer + stack machine of `parse_location_line` returns the parts in GenBank order with the right strand
+(`complement` reverses the order and flips every strand). -/
+theorem genbank_location_roundtrip (l : GenBank.GbLoc) (h : l.wf) :
+    GenBank.parseLocation (GenBank.render l) = .ok (GenBank.eval l) :=
+  GenBank.parseLocation_render l h
+
+/-- **`minimal_parser` and `rich_parser` agree on feature coordinates**: both views are functions of the one
+parse above — `minimal_parser` exposes the `Location` parts (`start`, `stop + 1`, `strand` in part order),
+`rich_parser` stores `get_coordinates()` (the same pairs, sorted) and `LocationList.strand` in its annotation db —
+so for the four shapes: the parts are the written `(a-1, b)` pairs (reversed under `complement`), the stored spans
+are those pairs sorted, and the stored strand is `+1` without and `-1` with `complement`. -/
+theorem genbank_minimal_rich_agree (l : GenBank.GbLoc) (h : l.wf) :
+    ∃ parts, GenBank.parseLocation (GenBank.render l) = .ok parts ∧
+      GenBank.pyCoords parts = (GenBank.eval l).map (fun s => (s.first - 1, s.second)) ∧
+      GenBank.getCoordinates parts = GenBank.sortPairs ((GenBank.eval l).map (fun s => (s.first - 1, s.second))) ∧
+      GenBank.listStrand parts = .ok (match l with
+        | .span _ => 1
+        | .join _ => 1
+        | .comp _ => -1
+        | .compJoin _ => -1) := by
+  refine ⟨GenBank.eval l, GenBank.parseLocation_render l h, rfl, rfl, ?_⟩
+  cases l with
+  | span p => exact GenBank.listStrand_fwd [p] (by simp)
+  | comp p => exact GenBank.listStrand_flip [p] (by simp)
+  | join ps => exact GenBank.listStrand_fwd ps h
+  | compJoin ps => exact GenBank.listStrand_flip ps h
+
+example : GenBank.render (.compJoin [(3, 8), (12, 20)]) = "complement(join(3..8,12..20))".toList := by decide
+example : GenBank.parseLocation (GenBank.render (.compJoin [(3, 8), (12, 20)])) = .ok [⟨12, 20, -1⟩, ⟨3, 8, -1⟩] := by decide
+example : GenBank.getCoordinates [⟨12, 20, -1⟩, ⟨3, 8, -1⟩] = [(2, 8), (11, 20)] := by decide
 
 end CogentModel.C06
